@@ -38,6 +38,11 @@ pub mod ddl;
 pub mod dml;
 pub mod eval;
 mod ops;
+/// the join and sort executors, for the verification facade (`verif::plan::run_join_operators`)
+#[cfg(feature = "verif")]
+pub(crate) mod verif_ops {
+    pub(crate) use super::ops::{HashJoin, MergeJoin, NestedLoopJoin, QuickSort, Values};
+}
 pub mod validator;
 
 #[cfg(test)]
